@@ -151,6 +151,48 @@ impl Property for C02 {
             }
         }
 
+        // the greeting itself cut at every position (with the read boundary after its line feed kept, see the
+        // assumptions): the connection that comes out of connect() must decode the same stream the same way
+        if i % 8 == 3 {
+            let g = GREETING.len();
+            let mut whole = GREETING.to_vec();
+            whole.extend_from_slice(&body);
+            for c in 0..g {
+                // c == 0: greeting byte by byte
+                let mut cuts: Vec<usize> = if c == 0 { (1..=g).collect() } else { vec![c, g] };
+                if let Seg::Cuts(more) = Seg::random(&mut r, len, 6) {
+                    cuts.extend(more.into_iter().map(|x| x + g));
+                }
+                cuts.sort_unstable();
+                cuts.dedup();
+                cuts.retain(|&x| x > 0 && x < whole.len());
+                let seg = Seg::Cuts(cuts);
+                for flavour in [Flavour::Sync, Flavour::Async] {
+                    let spec = RunSpec { greeting: b"", body: &whole, seg: &seg, end: end.clone(), flavour, pending_p: if c % 2 == 1 { 48 } else { 0 }, pending_seed: mix(&[cfg.seed, i, c as u64]), max_responses: 64, keep_alive: false };
+                    let out = run(&spec);
+                    acc.inc("evaluations");
+                    acc.inc("greeting_segmentations");
+                    if out.items != reference.items || out.version != reference.version {
+                        acc.violation(
+                            i,
+                            None,
+                            format!(
+                                "result depends on how the GREETING is segmented: stream '{}', {} connection, greeting cut at {} (reads end at {}): version {:?} vs {:?}; {}",
+                                label,
+                                flavour.name(),
+                                if c == 0 { "every byte".to_string() } else { c.to_string() },
+                                seg.describe(),
+                                out.version,
+                                reference.version,
+                                first_diff(&reference.items, &out.items)
+                            ),
+                            J::obj().set("stream_hex", J::hex(&whole[..whole.len().min(65536)])).set("segmentation", seg.describe()).set("flavour", flavour.name()).set("observed", items_summary(&out.items)),
+                        );
+                    }
+                }
+            }
+        }
+
         let mut sampled = false;
         for (k, seg) in segs.iter().enumerate() {
             for flavour in [Flavour::Sync, Flavour::Async] {
@@ -232,7 +274,7 @@ impl Property for C02 {
     fn meta(&self, _cfg: &Cfg, _acc: &Acc) -> Meta {
         Meta {
             level: "exploration",
-            rule: "streams: encoder output of random abstract sessions, buffer-edge sessions (length 4096*2^k +-3), mutated, dictionary and random bytes; each stream is run whole on the blocking connection (reference) and then under byte-at-a-time, 8 random k-way (k<=32) and 2-way splits (every split point for streams <=1 KiB, a 512-wide window around each 2^k buffer edge plus random points otherwise) on both connection flavours (async also with spurious Pending); a case is a (stream, segmentation, flavour) triple; non-trivial = the stream yields >=1 complete response and the segmentation has >=2 chunks; distinct = by hash of (stream bytes, cut points, flavour)".into(),
+            rule: "streams: encoder output of random abstract sessions, buffer-edge sessions (length 4096*2^k +-3), mutated, dictionary and random bytes; each stream is run whole on the blocking connection (reference) and then under byte-at-a-time, 8 random k-way (k<=32) and 2-way splits (every split point for streams <=1 KiB, a 512-wide window around each 2^k buffer edge plus random points otherwise) on both connection flavours (async also with spurious Pending); for every 8th stream additionally the greeting line itself is cut at each of its positions and byte by byte (connect under segmentation), the rest cut at random; a case is a (stream, segmentation, flavour) triple; non-trivial = the stream yields >=1 complete response and the segmentation has >=2 chunks; distinct = by hash of (stream bytes, cut points, flavour)".into(),
             nontrivial_set: "nontrivial",
             assumptions: vec![
                 "the greeting is delivered with a read boundary right after its line feed (connect discards bytes read beyond the greeting; nothing can follow the greeting in a real session before the client has spoken)".into(),
